@@ -980,6 +980,11 @@ Section Main.
   Theorem fragment_tree t f ln st : wf_b t = true -> (depth t <= f)%nat ->
     tokenize_block types (S f) (text_of (spell t)) ln st = ([pre_of md ln t], false, st_after st t).
   Proof. intros Hw Hd. exact (proj1 (fragment_all f) t ln st Hw Hd). Qed.
+
+  (* a sequence of blocks separated by blank lines: a whole document, or the content of a container *)
+  Theorem fragment_seq ts f ln st : seq_ok_b ts = true -> forallb wf_b ts = true -> Forall (fun t => (depth t <= f)%nat) ts ->
+    tokenize_block types (S f) (text_of (join_blank (map spell ts))) ln st = (pre_seq md ln ts, negb md && (1 <? Z.of_nat (length ts)), st_seq st ts).
+  Proof. intros Hs Hall Hd. exact (proj1 (proj2 (fragment_all f)) ts ln st Hs Hall Hd). Qed.
 End Main.
 
 (* ---- the token configurations that are modelled qualify ---- *)
@@ -998,6 +1003,14 @@ Proof.
   intros rec m B ln0 acc lo st0. rewrite dispatch_nl by exact H1. cbn [blank_entry app negb]. rewrite orb_true_r. reflexivity.
 Qed.
 
+Theorem fragment_seq_cfg types ts f ln st : fragment_config types = true -> seq_ok_b ts = true -> forallb wf_b ts = true -> Forall (fun t => (depth t <= f)%nat) ts ->
+  tokenize_block types (S f) (text_of (join_blank (map spell ts))) ln st = (pre_seq false ln ts, 1 <? Z.of_nat (length ts), st_seq st ts).
+Proof.
+  unfold fragment_config. intros H. repeat rewrite andb_true_iff in H. destruct H as [[[[[[H1 H2] H3] H4] H5] H6] H7].
+  apply (fragment_seq types false); try assumption; [|apply in_dec_paragraph; exact H4].
+  intros rec m B ln0 acc lo st0. rewrite dispatch_nl by exact H1. cbn [blank_entry app negb]. rewrite orb_true_r. reflexivity.
+Qed.
+
 (* the token set of the Markdown renderer: a blank line is a BlankLine block *)
 Lemma markdown_blank rec m B ln acc lo st :
   dispatch_loop block_types_markdown rec (S m) (NL :: B) ln acc lo st =
@@ -1008,6 +1021,13 @@ Theorem fragment_tree_markdown t f ln st : wf_b t = true -> (depth t <= f)%nat -
   tokenize_block block_types_markdown (S f) (text_of (spell t)) ln st = ([pre_of true ln t], false, st_after st t).
 Proof.
   apply (fragment_tree block_types_markdown true); try reflexivity; [exact markdown_blank|].
+  apply in_dec_paragraph. reflexivity.
+Qed.
+
+Theorem fragment_seq_markdown ts f ln st : seq_ok_b ts = true -> forallb wf_b ts = true -> Forall (fun t => (depth t <= f)%nat) ts ->
+  tokenize_block block_types_markdown (S f) (text_of (join_blank (map spell ts))) ln st = (pre_seq true ln ts, false, st_seq st ts).
+Proof.
+  apply (fragment_seq block_types_markdown true); try reflexivity; [exact markdown_blank|].
   apply in_dec_paragraph. reflexivity.
 Qed.
 
@@ -1154,6 +1174,16 @@ Section Tokens.
         cbn [tok_of]. fold (tok_seq md ts). rewrite <- IHn.
         cbn [build flat_map app existsb i_loose i_leader]. rewrite flat_map_app, (Kids ts ln Hd1 Hall), kids_blank. reflexivity.
   Qed.
+
+  Lemma build_seq ts ln : forallb wf_b ts = true ->
+    flat_map (fun e => match build span_types keep fn e with Some t => [t] | None => [] end) (pre_seq md ln ts) = tok_seq md ts.
+  Proof.
+    revert ln. induction ts as [|t0 r IHr]; intros ln Hws; [reflexivity|].
+    cbn [forallb] in Hws. apply andb_true_iff in Hws as [Hw1 Hwr].
+    cbn [pre_seq flat_map tok_seq]. rewrite (build_fragment (depth t0) t0 ln (le_n _) Hw1). cbn [app]. f_equal.
+    destruct r as [|t1 r']; [reflexivity|]. rewrite flat_map_app. rewrite IHr by assumption.
+    f_equal. apply kids_blank.
+  Qed.
 End Tokens.
 
 (* parse-after-write on the fragment, through the inline phase: the token tree is the tree the text was written from *)
@@ -1191,6 +1221,14 @@ Proof.
       destruct (pre_of md _ next); try exact IHn.
       cbn [defs_of flat_map] in *. rewrite IHn, app_nil_r, flat_map_app, Kids by (apply children_depth; lia).
       unfold blank_entry. destruct md; reflexivity.
+Qed.
+
+Lemma footnotes_of_seq md ts ln : footnotes_of (pre_seq md ln ts) = [].
+Proof.
+  unfold footnotes_of. assert (E : flat_map defs_of (pre_seq md ln ts) = []); [|rewrite E; reflexivity].
+  revert ln. induction ts as [|t0 r IHr]; intros ln; [reflexivity|].
+  cbn [pre_seq flat_map]. rewrite (defs_of_fragment md (depth t0) t0 ln (le_n _)). cbn [app].
+  destruct r as [|t1 r']; [reflexivity|]. rewrite flat_map_app, IHr. unfold blank_entry. destruct md; reflexivity.
 Qed.
 
 Lemma footnotes_of_fragment md t ln : footnotes_of [pre_of md ln t] = [].
